@@ -23,7 +23,7 @@ func init() {
 			{ID: "C16.R1", Floor: 2, Run: c16r1, Text: "layout-capacity chain (E-int): interval evaluation of the def-use chain from every make([]layout, n) back to the registry count / fresh id; every integer conversion and every addition/multiplication in a type narrower than int on that chain must admit its operand's maximum"},
 			{ID: "C16.R2", Floor: 2, Run: c10u6, Text: "limit guard (= C10.U6): the insert is dominated by `len >= limit → panic`, limit is MaskTotalBits"},
 			{ID: "C16.R3", Floor: 5, Run: c16r3, Text: "register/rollback inverse: every registry field written by the register method is written by the undo method"},
-			{ID: "C16.R4", Floor: 10, Run: c16r4, Text: "isRelation siblings: each implementation tests Kind()==Struct, NumField()>0, Field(0), field type == marker type, field name == marker name"},
+			{ID: "C16.R4", Floor: 10, Run: c16r4, Text: "isRelation siblings: each implementation tests Kind()==Struct, NumField()>0, Field(0), field type == marker type, field is embedded (Anonymous)"},
 			{ID: "C16.R5", Floor: 4, Run: c16r5, Text: "accessors read the registry they document: ComponentIDs/ComponentInfo/ComponentID/TypeID use World.registry; ResourceIDs/ResourceType/ResourceID/ResourceTypeID use World.resources.registry"},
 			{ID: "C16.R6", Floor: 1, Run: c09r5, Text: "registration under lock is rolled back completely (= C09.R5)"},
 			{ID: "C16.R7", Floor: 1, Run: c16r7, Text: "layout extension reaches every table: in every loop that extends table layouts, the extending call lies on every path of an iteration (no activity filter)"},
@@ -383,8 +383,25 @@ func c16r4(p *Prog, r *Reporter) {
 					if strings.Contains(both, ".Type") && strings.Contains(both, "global:relationType") {
 						facts["field type == marker type"] = true
 					}
-					if strings.Contains(both, ".Name") && strings.Contains(both, "call(Name)") {
-						facts["field name == marker name"] = true
+				case *ssa.Field:
+					if fieldName(x.X.Type(), x.Field) == "Anonymous" && x.Referrers() != nil {
+						for _, ref := range *x.Referrers() {
+							switch ref.(type) {
+							case *ssa.If, *ssa.Phi, *ssa.Return, *ssa.UnOp:
+								facts["field is embedded (Anonymous)"] = true
+							}
+						}
+					}
+				case *ssa.UnOp:
+					if x.Op == token.MUL {
+						if fa, ok := x.X.(*ssa.FieldAddr); ok && fieldName(fa.X.Type(), fa.Field) == "Anonymous" && x.Referrers() != nil {
+							for _, ref := range *x.Referrers() {
+								switch ref.(type) {
+								case *ssa.If, *ssa.Phi, *ssa.Return, *ssa.UnOp:
+									facts["field is embedded (Anonymous)"] = true
+								}
+							}
+						}
 					}
 				case *ssa.Call:
 					if x.Common().IsInvoke() && x.Common().Method.Name() == "Field" {
@@ -397,7 +414,7 @@ func c16r4(p *Prog, r *Reporter) {
 			}
 		}
 		name := p.FuncName(fn)
-		for _, f := range []string{"Kind()==Struct", "NumField()>0", "Field(0)", "field type == marker type", "field name == marker name"} {
+		for _, f := range []string{"Kind()==Struct", "NumField()>0", "Field(0)", "field type == marker type", "field is embedded (Anonymous)"} {
 			okf := facts[f]
 			if f == "Field(0)" {
 				okf = okf && fieldIdxOK
